@@ -329,14 +329,46 @@ fn verif_native_c04_macro_branching() {
     assert!(bad.is_empty(), "C04.N.macro.branching: {} of {} definitions: {:?}", bad.len(), defs.len(), bad);
 }
 
-//@n {"id":"C03.N.pipeline.text","props":["C03"],"tier":"quick","bound":"22 textual pipelines over addone/helmert with </> sugar, omit_fwd/omit_inv (suffix, infix, =true form), inv in prefix/infix/suffix position, one-step pipelines and one-step macro bodies; through Minimal; both directions; 2 tuples","text":"a step marked omit_fwd (or introduced by <) is skipped forward and executed inverse, omit_inv (or >) the opposite, also when it is the only step of a pipeline or of a macro body; inv anywhere in a step's definition exchanges its directions; counts report all tuples"}
+//@n {"id":"C04.N.flag.lookup","props":["C04"],"tier":"quick","bound":"macros whose body takes a FLAG, a number and a text from the caller (inv=$reverse, x=$east, convention=$conv, exact=$ex), invoked with and without the argument, with defaults; through Minimal","text":"a $name look-up without default whose name is absent among the caller's arguments is an error whatever the type of the parameter (flag, real, text); with a default the default is used; with the argument given the body behaves as if the value had been written literally"}
+#[test]
+fn verif_native_c04_flag_lookup() {
+    let mut ctx = Minimal::default();
+    ctx.register_resource("f:flag", "addone inv=$reverse");
+    ctx.register_resource("f:flagd", "addone inv=$reverse(false)");
+    ctx.register_resource("f:real", "helmert x=$east");
+    ctx.register_resource("f:text", "helmert rx=1 convention=$conv");
+    ctx.register_resource("f:exact", "helmert rx=1 convention=position_vector exact=$ex");
+    let mut fails = Vec::new();
+    // missing arguments without default: errors
+    for def in ["f:flag", "f:real", "f:text", "f:exact", "addone | f:flag | addone", "f:flag other=1"] {
+        if ctx.op(def).is_ok() {
+            fails.push(format!("`{def}`: a look-up without default and without the argument was accepted"));
+        }
+    }
+    // given / defaulted: same as the literal
+    for (inv, lit) in [("f:flag reverse=true", "addone inv=true"), ("f:flag reverse=false", "addone inv=false"), ("f:flagd", "addone inv=false"), ("f:flagd reverse=true", "addone inv"), ("f:real east=3", "helmert x=3"), ("f:text conv=coordinate_frame", "helmert rx=1 convention=coordinate_frame"), ("f:exact ex=true", "helmert rx=1 convention=position_vector exact")] {
+        for dir in [Direction::Fwd, Direction::Inv] {
+            let d = format!("{dir:?}");
+            let a = run(&mut ctx, inv, if d == "Fwd" { Direction::Fwd } else { Direction::Inv });
+            let b = run(&mut ctx, lit, dir);
+            match (&a, &b) {
+                (Ok(x), Ok(y)) if x.0 == y.0 && x.1[0].to_bits() == y.1[0].to_bits() && x.1[1].to_bits() == y.1[1].to_bits() => {}
+                (Err(_), Err(_)) => {} // refused alike (e.g. a flag given an explicit `false`)
+                _ => fails.push(format!("`{inv}` {d}: {:?}, but the literal `{lit}`: {:?}", a, b)),
+            }
+        }
+    }
+    assert!(fails.is_empty(), "C04.N.flag.lookup: {} failures: {:?}", fails.len(), &fails[..fails.len().min(5)]);
+}
+
+//@n {"id":"C03.N.pipeline.text","props":["C03"],"tier":"quick","bound":"28 textual pipelines over addone/helmert with </> sugar, omit_fwd/omit_inv (suffix, infix, =true form), inv in prefix/infix/suffix position, two and three prefix modifiers in either order, one-step pipelines and one-step macro bodies; through Minimal; both directions; 2 tuples","text":"a step marked omit_fwd (or introduced by <) is skipped forward and executed inverse, omit_inv (or >) the opposite, also when it is the only step of a pipeline or of a macro body; inv anywhere in a step's definition exchanges its directions; counts report all tuples"}
 #[test]
 fn verif_native_c03_pipeline_text() {
     let mut ctx = macro_ctx();
     ctx.register_resource("my:shift", "> helmert x=5");
     ctx.register_resource("my:back", "< helmert x=5");
     // (definition, change of x forward, change of x inverse) -- computed from the property statement
-    let cases: [(&str, f64, f64); 22] = [
+    let cases: [(&str, f64, f64); 28] = [
         ("< helmert x=1", 0.0, -1.0),
         ("> helmert x=1", 1.0, 0.0),
         ("helmert x=1 omit_fwd | noop", 0.0, -1.0),
@@ -359,6 +391,13 @@ fn verif_native_c03_pipeline_text() {
         ("addone | my:shift | addone", 7.0, -2.0),
         ("addone | my:shift inv | addone", 2.0, 3.0),
         ("addone | my:back inv | addone", -3.0, -2.0),
+        // several modifiers in front of the operator name
+        ("addone < inv helmert x=2 | addone", 2.0, 0.0),
+        ("addone > inv helmert x=2 | addone", 0.0, -2.0),
+        ("addone | inv omit_inv helmert x=2 | addone", 0.0, -2.0),
+        ("addone | omit_fwd inv helmert x=2 | addone", 2.0, 0.0),
+        ("< inv helmert x=1", 0.0, 1.0),
+        ("addone | inv omit_fwd omit_inv helmert x=2 | addone", 2.0, -2.0),
     ];
     let mut fails = Vec::new();
     let mut ids = Vec::new();
